@@ -13,7 +13,7 @@ from fractions import Fraction
 import numpy as np
 import z3
 
-from ..core import Ctx, Inconclusive, SBool, SInt, SReal, Unsupported, explore, rebind, rebind_class, term, wrap
+from ..core import NumpyFallback, Ctx, Inconclusive, SBool, SInt, SReal, Unsupported, explore, rebind, rebind_class, term, wrap
 from .c09 import NPdelay, OArr
 
 P0 = 0.5            # folding period
@@ -45,7 +45,7 @@ def as_int_term(k):
     return z3.IntVal(int(k))
 
 
-class NPfold:
+class NPfold(metaclass=NumpyFallback):
     float64, float32, int32 = np.float64, np.float32, np.int32
 
     @staticmethod
